@@ -42,6 +42,11 @@ and opened with DebFile(fileobj=BytesIO).
     question repeated, another order of questions, two DebFile objects alive on one file object / one file name, other
     constructor argument forms, the TarFile of part.tgz().  Signatures get the prefix "via-<route>/".
 
+  * beyond the small scope (count and size ladders, see bounds()["beyond_the_small_scope"]): md5sums lists of 1..40, ... 1000,
+    2000, 5000 entries, 1..5000 additional control fields, one field value of up to 256 KiB, 1..257 and 1000 data files, one
+    data file of 997 bytes .. 256 KiB + 1 around every power-of-two block size, three and more candidates for one part in every
+    rotation of the member order.  Signatures start with ladder/... or size/...; the inputs are regenerated from the case.
+
 Oracle: what was packed (the generator's own lists), never anything read back through the code under test.
 """
 import io
@@ -106,6 +111,23 @@ def bounds(tier):
             "dot_names": {"names": DOT_NAMES, "contents": [name for name, _c in dotnames(0)],
                           "queried": "every packed file in the 3 spellings (get_content, has_file, in, get_file); every dot name "
                                      "and every ordinary name that is not packed must be absent in the 3 spellings"},
+            "beyond_the_small_scope": {
+                "md5sums entries": "every n in 1..40 and %r entries (names with inner / doubled / trailing blanks and non-ASCII at fixed "
+                                   "residues; 1000+ entries exceed 64 KiB), control part in each of the 5 compressions, member order "
+                                   "rotating with n; bytes keys and str keys" % [n for n in SC_COUNTS if n > 40],
+                "control fields": "the same n as additional fields (every 5th multi-line, every 7th empty) after / before / between "
+                                  "the ordinary three, 5 compressions (n > 257: one arrangement per n)",
+                "field value size": "one value of %r characters as a single line with blanks and as 70-character continuation "
+                                    "lines; control part none / gz / xz" % SC_SIZES,
+                "data files": "every n in 1..40 and %r files (every 4th empty, every 3rd with a blank in its name), each asked in the "
+                              "3 spellings; data part in 5 compressions (1000 files: none / gz)" % [n for n in SC_FILE_COUNTS if n > 40],
+                "data member size": "a data file of %r bytes between two small ones: incompressible bytes and text with a newline "
+                                    "before every 16 KiB boundary; data part none / gz (bz2 / xz / lzma: %s); get_content, has_file, "
+                                    "in, get_file().read() in the 3 spellings, get_file() read in pieces of 65536 / 16384 / 65537; "
+                                    "fileobj= and filename=" % (SC_SIZES, "the same sizes" if tier != "quick" else repr(SC_SIZES_SLOW)),
+                "three and more candidates": "3, 4 and 5 candidates for the control part (and for the data part) next to one offer for "
+                                             "the other part, and 3+2 / 5+5 candidates for both, in every rotation of the member order: "
+                                             "DebError"},
             "open_mode": {"everywhere": "DebFile(fileobj=io.BytesIO(...))",
                           "other_ways": list(OPEN_MODES[1:]),
                           "three_contents": "3 contents (%s) x 25 compression pairs x %d member orders: %s"
@@ -173,6 +195,10 @@ def assumptions():
             "routes: with encoding= the reference is what a text-mode file (io.TextIOWrapper, default newline handling) over "
             "the packed bytes returns - 'If encoding is given, then the file object will return Unicode data'; md5sums keys "
             "with encoding= are the packed names' UTF-8 bytes decoded with that encoding and error handler",
+            "beyond the small scope: the ladder contents are generated from a compact description in the case (family, n or size, "
+            "compressions, member order) by scale_content(); md5 values of the md5sums ladder are those of the entry names (any 32 "
+            "hexadecimal digits are a legitimate list: the statement compares the list that was packed, not the data); nothing is "
+            "sampled - every n of a ladder and every size is packed and opened",
             "routes left out: iteration over a part (yields the tarball's own member names incl. directories: not a "
             "membership or content query of the statement), DebFile.version, DebFile.changelog() (a parsed view of one data "
             "file, judged by the changelog properties), pathlib.Path file names (the parameter is documented as str), a file "
@@ -469,12 +495,15 @@ def units(tier, seed):
         for cc in db.COMPRESSIONS:
             if any(c == cc for c, _d in large_pairs(name, tier)):
                 out.append({"kind": "large", "content": name, "cc": cc})
+    out += scale_units(tier)
     return out
 
 
 def unit_cost(u, tier):
     if u["kind"] == "defective":
         return 1
+    if u["kind"] == "scale":
+        return 3000 if u["family"] in ("data-size", "fields") else 1500
     if u["kind"] == "large":
         return 1000 * len([1 for c, _d in large_pairs(u["content"], tier) if c == u["cc"]])
     c = u["content"]
@@ -1319,6 +1348,215 @@ def run_large(u, tier, seed):
     return part
 
 
+# ------------------------------------------------------------------------------------------------ beyond the small scope
+
+SC_COUNTS = list(range(1, 41)) + [63, 64, 65, 100, 127, 128, 129, 255, 256, 257, 999, 1000, 1001, 1025, 2000, 2500, 2501, 5000]
+SC_FILE_COUNTS = [n for n in SC_COUNTS if n <= 257] + [1000]
+SC_SIZES = [997, 998, 999, 1000, 4095, 4096, 4097, 16383, 16384, 16385, 65535, 65536, 65537, 131071, 131072, 131073, 196608,
+            262143, 262144, 262145]
+SC_SIZES_SLOW = [65535, 65536, 65537, 131072, 262144, 262145]          # for bz2 / xz / lzma (compression of the input costs 30-100 ms)
+SC_FAMILIES = ["md5", "fields", "field-size", "files", "data-size", "candidates"]
+SC_BASE_CTRL = [["Package", "p"], ["Version", "1.0-1"], ["Description", "short\n long line\n .\n more"]]
+SC_BASE_DATA = [["usr/bin/x", b"\x00\xff"], ["a b", b"text\n"]]
+
+
+def sc_md5_name(i):
+    if i % 7 == 3:
+        return "usr/share/doc/p/a file %d" % i          # inner blanks
+    if i % 11 == 5:
+        return "usr/share/été/f%d" % i          # non-ASCII
+    if i % 13 == 6:
+        return "f%d  x " % i                             # doubled and trailing blanks
+    return "usr/lib/p/f%d.so" % i
+
+
+def sc_field(i):
+    if i % 5 == 2:
+        return ["X-F%d" % i, "v%d\n continued %d\n .\n end" % (i, i)]
+    if i % 7 == 4:
+        return ["X-F%d" % i, ""]
+    return ["X-F%d" % i, "value %d" % i]
+
+
+def sc_long_value(L, arr):
+    if arr == "one-line":
+        v = ("ab cd, efg " * (L // 11 + 1))[:L]
+        return v[:-1] + "z" if v.endswith(" ") else v
+    lines, have = [], 0
+    i = 0
+    while have < L:
+        l = ("line %d " % i + "x" * 70)[:min(70, L - have)]
+        l = l[:-1] + "z" if l.endswith(" ") else l
+        lines.append(l)
+        have += len(l) + 2
+        i += 1
+    return "\n ".join(lines)
+
+
+def sc_data(L, fill, seed):
+    if fill == "chain":
+        return db.chain_bytes(L, "scale/%d/%d" % (L, seed))
+    buf = bytearray((b"abcdefghijklmnopqrstuvw" * (L // 23 + 1))[:L])
+    for B in list(range(16384, L + 1, 16384)) + [L]:
+        buf[B - 1] = 10
+    return bytes(buf)
+
+
+def scale_content(case):
+    """the content dict of a scale case, generated from its compact description"""
+    fam = case["family"]
+    c = {"control": [list(p) for p in SC_BASE_CTRL], "scripts": [["postinst", b"#!/bin/sh\nexit 0\n"]],
+         "md5": [[db.md5_of(d), n] for n, d in SC_BASE_DATA], "data": [list(p) for p in SC_BASE_DATA]}
+    if fam == "md5":
+        names = [sc_md5_name(i) for i in range(case["n"])]
+        c["md5"] = [[db.md5_of(n.encode("utf-8")), n] for n in names]
+    elif fam == "fields":
+        n, arr = case["n"], case["arr"]
+        extra = [sc_field(i) for i in range(n)]
+        c["control"] = {"after": c["control"] + extra, "before": extra + c["control"],
+                        "between": c["control"][:2] + extra + c["control"][2:]}[arr]
+    elif fam == "field-size":
+        v = sc_long_value(case["L"], case["arr"])
+        c["control"] = c["control"][:2] + [["X-Long", v]] + c["control"][2:]
+    elif fam == "files":
+        c["data"] = [["usr/share/p/f%d" % i if i % 3 else "f %d" % i, b"%d\n" % i if i % 4 else b""] for i in range(case["n"])]
+        c["md5"] = [[db.md5_of(d), n] for n, d in c["data"]]
+    elif fam == "data-size":
+        big = sc_data(case["L"], case["fill"], case.get("seed", 0))
+        c["data"] = [SC_BASE_DATA[0], ["usr/share/big", big], SC_BASE_DATA[1]]
+        c["md5"] = [[db.md5_of(d), n] for n, d in c["data"]]
+        c["empties"] = "scale"          # (every data file is then also read through get_file() in the three spellings)
+    return c
+
+
+def scale_raw(content, cc, dc, order):
+    ctrl = db.control_files([tuple(p) for p in content["control"]], [tuple(p) for p in content["scripts"]],
+                            [tuple(p) for p in content["md5"]])
+    trio = [(db.INFO, db.INFO_DATA),
+            (db.part_name("control", cc), _compress_cached(db.tar_bytes(ctrl, with_dirs=False), cc)),
+            (db.part_name("data", dc), _compress_cached(db.tar_bytes([tuple(p) for p in content["data"]]), dc))]
+    return db.assemble([trio[i] for i in order])
+
+
+def _chunked(raw, name, want, chunk):
+    """get_file(name) read in pieces of `chunk` bytes -> None or (sig, expected, observed)"""
+    from debian.debfile import DebFile
+    try:
+        deb = DebFile(fileobj=io.BytesIO(raw))
+        f = deb.data.get_file(name)
+        got = []
+        for _ in range(len(want) // chunk + 3):
+            b = f.read(chunk)
+            if not b:
+                break
+            got.append(b)
+        got = b"".join(got)
+    except Exception as e:
+        return ("deb/data/get_file/chunks-of-%d/raises" % chunk, "no exception", _exc(e))
+    if got != want:
+        return ("deb/data/get_file/chunks-of-%d" % chunk,) + _cmp_bytes(want, got)
+    return None
+
+
+def _brief(x, n=300):
+    s = repr(x)
+    return s if len(s) <= n else "%s ... %s (%d characters)" % (s[:n // 2], s[-n // 3:], len(s))
+
+
+def exec_scale(case):
+    """-> list of (sig, expected, observed)"""
+    fam = case["family"]
+    if fam == "candidates":
+        return [("scale/candidates/" + b[0],) + tuple(b[1:]) for b in check_defective(list(case["members"]))[0]]
+    content = scale_content(case)
+    raw = scale_raw(content, case["cc"], case["dc"], tuple(case["order"]))
+    bad = check_valid(raw, content, ["absent", "usr/share/p/f0x"])
+    if not bad and (fam == "data-size" or (fam == "md5" and case["n"] > 257)):
+        bad = check_valid(raw, content, ["absent"], mode="filename")       # (signatures get the prefix via-filename/)
+    if fam == "data-size" and not bad:
+        for chunk in (65536, 16384, 65537):
+            b = _chunked(raw, "./usr/share/big", content["data"][1][1], chunk)
+            if b:
+                bad.append(b)
+    pre = {"md5": "ladder/md5sums-entries", "fields": "ladder/control-fields/%s" % case.get("arr"), "field-size": "size/field-value/%s" % case.get("arr"),
+           "files": "ladder/data-files", "data-size": "size/data-member/%s" % case.get("fill")}[fam]
+    return [("%s/%s" % (pre, b[0]), _brief(b[1]), _brief(b[2])) for b in bad]
+
+
+def scale_units(tier):
+    out = []
+    for fam in ("md5", "fields", "files"):
+        for k in db.COMPRESSIONS:
+            out.append({"kind": "scale", "family": fam, "k": k})
+    for k in ("none", "gz", "xz"):
+        out.append({"kind": "scale", "family": "field-size", "k": k})
+    for k in db.COMPRESSIONS:
+        for fill in ("chain", "text"):
+            out.append({"kind": "scale", "family": "data-size", "k": k, "fill": fill})
+    out.append({"kind": "scale", "family": "candidates"})
+    return out
+
+
+def scale_cases(u, tier, seed):
+    fam, k = u["family"], u.get("k")
+    if fam == "md5":
+        for n in SC_COUNTS:
+            yield {"kind": "scale", "family": fam, "n": n, "cc": k, "dc": "gz", "order": list(ORDERS[n % 6])}, n
+    elif fam == "fields":
+        for n in SC_COUNTS:
+            for arr in ("after", "before", "between"):
+                if n > 257 and arr != ("after", "before", "between")[n % 3]:
+                    continue
+                yield {"kind": "scale", "family": fam, "n": n, "arr": arr, "cc": k, "dc": "none", "order": list(ORDERS[n % 6])}, n
+    elif fam == "files":
+        for n in SC_FILE_COUNTS:
+            if n > 257 and k not in ("gz", "none"):
+                continue
+            yield {"kind": "scale", "family": fam, "n": n, "cc": "gz", "dc": k, "order": list(ORDERS[n % 6])}, n
+    elif fam == "field-size":
+        for L in SC_SIZES:
+            for arr in ("one-line", "many-lines"):
+                yield {"kind": "scale", "family": fam, "L": L, "arr": arr, "cc": k, "dc": "gz", "order": list(ORDERS[L % 6])}, L
+    elif fam == "data-size":
+        for L in (SC_SIZES if k in ("none", "gz") or tier != "quick" else SC_SIZES_SLOW):
+            yield {"kind": "scale", "family": fam, "L": L, "fill": u["fill"], "seed": seed % 4, "cc": "gz", "dc": k,
+                   "order": list(ORDERS[L % 6])}, L
+    else:
+        for part in ("control", "data"):
+            other = "data.tar.gz" if part == "control" else "control.tar.xz"
+            for r in (3, 4, 5):
+                for sub in itertools.combinations(CAND[part], r):
+                    base = [db.INFO] + list(sub) + [other]
+                    for rot in range(len(base)):
+                        yield {"kind": "scale", "family": fam, "members": base[rot:] + base[:rot]}, len(base)
+        for r in (3, 5):
+            base = [db.INFO] + CAND["control"][:r] + CAND["data"][5 - r:]
+            for rot in range(len(base)):
+                yield {"kind": "scale", "family": fam, "members": base[rot:] + base[:rot]}, len(base)
+
+
+def run_scale(u, tier, seed):
+    part = core.Part()
+    for case, rank in scale_cases(u, tier, seed):
+        bad = exec_scale(case)
+        part.states += 1
+        part.transitions += 1
+        part.traces += 1
+        part.evaluations += 1
+        part.max_depth = max(part.max_depth, rank if rank < 6000 else 0)
+        for sig, exp, obs in bad:
+            part.violation(sig, case, exp, obs, rank=rank)
+        if bad:
+            part.outcomes["VIOLATION:" + bad[0][0]] += 1
+        else:
+            part.nontrivial += 1
+            part.outcomes["scale/%s/%s" % (u["family"], u.get("k", "rejected"))] += 1
+            part.extra["beyond the small scope: %s cases" % u["family"]] += 1
+        if rank in (40, 65536, 5):
+            part.sample(case)
+    return part
+
+
 def _bucket(n):
     return "<= 8 KiB" if n <= 8192 else "8..128 KiB" if n <= 131072 else "> 128 KiB"
 
@@ -1326,6 +1564,8 @@ def _bucket(n):
 def run_unit(u, tier, seed):
     if u["kind"] == "large":
         return run_large(u, tier, seed)
+    if u["kind"] == "scale":
+        return run_scale(u, tier, seed)
     part = core.Part()
     if u["kind"] == "defective":
         for si, names in enumerate(u["sets"]):
@@ -1464,6 +1704,8 @@ def run_unit(u, tier, seed):
 
 
 def replay(case):
+    if case["kind"] == "scale":
+        return exec_scale(case)
     mode = case.get("open", "fileobj")
     if case["kind"] == "defective":
         return check_defective(list(case["members"]), mode)[0]
